@@ -278,13 +278,23 @@ class StoreBackendMixin(object):
     def store_cached_func_code(self, call_id, func_code=None):
         """Store the code of the cached function."""
         func_path = os.path.join(self.location, *call_id)
-        if not self._item_exists(func_path):
-            self.create_location(func_path)
+        try:
+            if not self._item_exists(func_path):
+                self.create_location(func_path)
 
-        if func_code is not None:
-            filename = os.path.join(func_path, "func_code.py")
-            with self._open_item(filename, "wb") as f:
-                f.write(func_code.encode("utf-8"))
+            if func_code is not None:
+                filename = os.path.join(func_path, "func_code.py")
+                with self._open_item(filename, "wb") as f:
+                    f.write(func_code.encode("utf-8"))
+        except OSError as e:
+            # The directory can be removed at any time by a concurrent
+            # Memory.clear() or reduce_size(). Not storing the code only
+            # causes a later recomputation, as in dump_item.
+            warnings.warn(
+                "Unable to store the function code on disk. Possibly a race "
+                f"condition with another process clearing the cache. Exception: {e}.",
+                CacheWarning,
+            )
 
     def get_cached_func_code(self, call_id):
         """Store the code of the cached function."""
